@@ -17,6 +17,8 @@ import tasks
 
 
 def main():
+    _out.write(json.dumps({"hello": tasks.impl.paths.gasol_path}) + "\n")
+    _out.flush()
     for line in sys.stdin:
         line = line.strip()
         if not line:
